@@ -896,10 +896,8 @@ def chunk_placement(rep):
         raise AnalysisError("join_chunks: no concatenation found")
     axes_seen = []
     for c in joins:
-        ax = None
-        for k in c.keywords:
-            if k.arg == "axis":
-                ax = const_value(k.value)
+        axn = call_arg(c, 2 if unparse(c.func) == "np.append" else 1, "axis")
+        ax = const_value(axn) if axn is not None else None
         ckey = f"{key}::{unparse(c.func)}(axis={ax})@{norm_src(c)[:40]}"
         # operands that are whole chunks / partial joins
         ops = c.args[0].elts if unparse(c.func) != "np.append" and isinstance(
@@ -1042,9 +1040,14 @@ def chunk_placement(rep):
                 stage_ok = False
                 why.append(f"stage {n + 1} orders by origin component {comp} but groups by "
                            f"{rest}, not by all the other components")
-        else:
+        elif remaining:
             comp = remaining[0]
             rest = []
+        else:
+            stage_ok = False
+            why.append(f"joining stage {n + 1} comes after every origin component has been "
+                       "used: it cannot be ordered by recorded origins")
+            break
         if ax != 2 - comp:
             stage_ok = False
             why.append(f"stage {n + 1} orders by origin component {comp} ('xyz'[{comp}]) but "
